@@ -479,6 +479,7 @@ func (t *Tables) Project(root, home string) M {
 		ign["present"] = true
 		ls := []any{}
 		for _, ln := range strings.Split(string(b), "\n") {
+			ln = strings.TrimSuffix(ln, "\r") // a line ends with LF or CRLF
 			if ln != "" {
 				ls = append(ls, t.Name([]byte(ln)))
 			}
